@@ -299,6 +299,116 @@ pub fn run(ctx: &mut Ctx) {
         rep.sample(|| json!({"stage":"folds","source":macro_src,"list_len":len,"outcome":mon::clip(&out.show(), 160)}));
     });
 
+    // ---- constant receivers: the body still sees the caller's bindings ------------------------------
+    // A macro over a literal list / map may be evaluated by the compiler. Whatever it does, the body is
+    // evaluated in the lexical environment of the call: outer variables that the body only *absorbs*
+    // (inside has(), coalesce(), a list / map element) are visible exactly as with a run-time receiver.
+    // Oracle: the same macro over the same elements held in a bound variable (never foldable).
+    let nlr = ctx.n(40_000, 400_000);
+    const ABSORBING_BOOL: [&str; 10] = [
+        "has(o1)", "!has(o1)", "has(om.a)", "coalesce(o1, 0) == o1", "coalesce(o1, @) == @", "size([@, o1]) == 2",
+        "[@, o1][1] == o1", "coalesce(om.zz, o1) == o1", "has(o1) || @ == @", "type(coalesce(o1, 'none')) == int",
+    ];
+    const ABSORBING_ANY: [&str; 8] = [
+        "coalesce(o1, 0)", "[@, o1]", "has(o1)", "{'k': o1}", "coalesce(om.a, om.zz, o1)", "[has(o1), has(om.a), has(om.zz)]",
+        "coalesce(o1, @)", "f'{coalesce(o1, 0)}'",
+    ];
+    ctx.stage("constant-receiver", nlr, true, |_idx, rng, rep| {
+        let on_map = rng.chance(1, 4);
+        let mac = if on_map { *rng.pick(&["map", "filter", "map3"]) } else { *rng.pick(&MACROS) };
+        let xname = rng.pick(&["x", "it", "k", "size"]).to_string();
+        let len = rng.below(5);
+        let (recv_val, et): (CelValue, Ty) = if on_map {
+            let mut m = std::collections::HashMap::new();
+            for _ in 0..len {
+                m.insert(rng.pick(&["a", "b", "k", "zz"]).to_string(), CelValue::from_int(rng.range(-3, 3)));
+            }
+            (CelValue::from_map(m), Ty::Str)
+        } else {
+            let et = rng.pick(&[Ty::Int, Ty::Int, Ty::Str, Ty::Bool]).clone();
+            (CelValue::from_list((0..len).map(|_| gen::value_of(rng, &et, true)).collect()), et)
+        };
+        let recv_lit = match crate::vals::spell(&recv_val) {
+            Some(l) => l,
+            None => return,
+        };
+        // outer environment: o1 an int, om a map with key a (never zz); sometimes left unbound
+        let mut binds: Vec<(String, CelValue)> = Vec::new();
+        let unbound_outer = rng.chance(1, 6);
+        if !unbound_outer {
+            binds.push(("o1".into(), rng.range(1, 9).into()));
+            binds.push(("om".into(), crate::vals::mk_map(&[("a", rng.range(1, 9).into())])));
+        }
+        let outer = vec![VarDecl { name: "o1".into(), ty: Ty::Int }, VarDecl { name: "om".into(), ty: Ty::Map(Box::new(Ty::Int)) }];
+        let mut cfg = GenCfg::basic(outer.clone());
+        cfg.vars.push(VarDecl { name: xname.clone(), ty: et.clone() });
+        cfg.allow_fstr = false;
+        cfg.loop_names = vec![xname.clone(), "y".into()];
+        let acc_ty = Ty::Int;
+        if mac == "reduce" {
+            cfg.vars.push(VarDecl { name: "acc".into(), ty: acc_ty.clone() });
+        }
+        let d = 1 + rng.below(2) as u32;
+        let templated = rng.chance(2, 3);
+        let (pred_src, val_src): (String, String) = {
+            let mut g = Gen::new(rng, cfg);
+            let p = gen::src(&g.cond(d));
+            let t = gen::random_ty(g.rng, 0);
+            let v = gen::src(&if mac == "reduce" { g.expr(&acc_ty, d) } else { g.expr(&t, d) });
+            (p, v)
+        };
+        let (pred_src, val_src) = if templated {
+            let tb = rng.pick(&ABSORBING_BOOL).replace('@', &xname);
+            let ta = rng.pick(&ABSORBING_ANY).replace('@', &xname);
+            let p = match rng.below(3) {
+                0 => tb,
+                1 => format!("{} && ({})", tb, pred_src),
+                _ => format!("({}) || {}", pred_src, tb),
+            };
+            let v = if mac == "reduce" { format!("acc + coalesce(o1, 0) + size([{}])", ta) } else { ta };
+            (p, v)
+        } else {
+            (pred_src, val_src)
+        };
+        let tail = match mac {
+            "all" | "exists" | "exists_one" | "filter" => format!("{}({}, {})", mac, xname, pred_src),
+            "map" => format!("map({}, {})", xname, val_src),
+            "map3" => format!("map({}, {}, {})", xname, pred_src, val_src),
+            _ => format!("reduce(acc, {}, {}, 0)", xname, val_src),
+        };
+        let lit_src = format!("{}.{}", recv_lit, tail);
+        let var_src = format!("r.{}", tail);
+        let vbinds = with(&binds, "r", &recv_val);
+        let reference = mon::run1(&var_src, &vbinds);
+        rep.eval();
+        rep.count(&format!("constant_receiver/{}", mac));
+        if templated {
+            rep.count("constant_receiver_absorbing_bodies");
+        }
+        if unbound_outer {
+            rep.count("constant_receiver_outer_unbound");
+        }
+        // the literal form, alone and nested where the compiler sees more context
+        for (shape, src) in [("plain", lit_src.clone()), ("in-list", format!("[{}][0]", lit_src)), ("in-ternary", format!("true ? {} : 0", lit_src))] {
+            let out = mon::run1(&src, &binds);
+            rep.eval();
+            if out.canon_anyerr() != reference.canon_anyerr() {
+                rep.viol(
+                    &format!("constant-receiver|{}|{}|{}", mac, shape, match (&reference, &out) {
+                        (Out::Val(_), Out::Val(_)) => "different-values",
+                        (Out::Val(_), _) => "literal-form-fails",
+                        (_, Out::Val(_)) => "bound-form-fails",
+                        _ => "other",
+                    }),
+                    &format!("`{}` gives {} but `{}` with r bound to the same elements gives {} (bindings {})", src, out.show(), var_src, reference.show(), mon::binds_json(&binds)),
+                    json!({"literal_form": src, "bound_form": var_src, "bindings": mon::binds_json(&vbinds)}),
+                );
+            }
+        }
+        rep.distinct(&lit_src, len >= 1);
+        rep.sample(|| json!({"stage":"constant-receiver","source":mon::clip(&lit_src, 200),"outcome":mon::clip(&reference.show(), 120)}));
+    });
+
     // ---- the same folds with a map as receiver: the loop variable ranges over the keys -------------
     let nmf = ctx.n(20_000, 200_000);
     ctx.stage("folds-on-maps", nmf, true, |_idx, rng, rep| {
